@@ -98,6 +98,7 @@ type Truth struct {
 	Hang    bool
 	EndSeq  int
 	EndT    time.Duration
+	ExecFails map[string][]int // replica -> log positions of failed launches
 	Unknown []string // commands the harness could not map to a script
 	Order   []string
 	LoadErr string
@@ -131,7 +132,7 @@ func tokenReplica(tok string, repl func(name string) int) string {
 }
 
 func BuildTruth(sc *Scenario, log *simlog.Log) *Truth {
-	t := &Truth{Events: log.Events, ByPid: map[int]*Inst{}, ByRep: map[string][]*Inst{}, ByToken: map[string][]*Inst{}, Trans: map[string][]Trans{}, RunRet: -1, RunCall: -1}
+	t := &Truth{Events: log.Events, ByPid: map[int]*Inst{}, ByRep: map[string][]*Inst{}, ByToken: map[string][]*Inst{}, Trans: map[string][]Trans{}, RunRet: -1, RunCall: -1, ExecFails: map[string][]int{}}
 	replicas := map[string]int{}
 	if sc.Project != nil {
 		for _, p := range sc.Project.Procs {
@@ -168,6 +169,11 @@ func BuildTruth(sc *Scenario, log *simlog.Log) *Truth {
 			t.Insts = append(t.Insts, in)
 			t.ByPid[in.Pid] = in
 			t.ByToken[e.Subj] = append(t.ByToken[e.Subj], in)
+		case "os.execfail":
+			if !strings.HasPrefix(e.Subj, "sim") {
+				rep := tokenReplica(e.Subj, repl)
+				t.ExecFails[rep] = append(t.ExecFails[rep], e.Seq)
+			}
 		case "os.fork":
 			in := &Inst{Kind: "child", Token: e.Subj, Pid: e.Pid, Ppid: e.N, ExecSeq: e.Seq, ExitSeq: -1, ReapSeq: -1, ExecT: e.T}
 			fmt.Sscanf(e.A, "pgid=%d", &in.Pgid)
